@@ -110,6 +110,14 @@ def run(tier):
                     ops.append(st.gen_fwd_op(rng, t, inp=u, mode=mode, cap=cap, argmask=64 | 28, cursor=cur))
         cases.append(common.Case("c10-%d" % ti, ["HOOK trace 1"], ops, {"table": t}))
     common.run_cases(exe, cases + togg, batch=4, timeout=300)
+    # whole calls on composite tables under all 32 presence patterns: the model the blindness theorems are about
+    # (CurBlind.model_optargs) computes the same result as the code
+    wc = st.composite_cases(rng, 100 if tier == "quick" else 2500, per_table=8, tag="c10wc", argmasks=list(range(32)))
+    wcalls = st.run_and_trace(exe, wc)
+    wdist = {}
+    whole_bad = st.compare_whole(wcalls, wdist)
+    v.obligation("correspondence: the model alone (driver + main-pass + stage models) computes the whole result of every call on "
+                 "composite generated tables under every presence pattern of the optional arguments", not whole_bad, "\n".join(whole_bad[:3]))
     ngroups = 0
     ntog = 0
     for c in togg:
@@ -178,7 +186,8 @@ def run(tier):
                 v.sample({"all_present": grp[31][0][:200], "none": grp[0][0][:200], "result": grp[31][1].split(" | ")[0][:200]})
         if c.fault:
             v.notes.append("fault during C10 run (memory faults are decided by C01/C02): %s %s" % (c.fault["kind"], c.fault["frame"]))
-    v.cov["distribution"] = {"groups_of_32_patterns": ngroups, "single_toggle_groups": ntog, "tables": len(tables)}
+    v.cov["distribution"] = dict({"groups_of_32_patterns": ngroups, "single_toggle_groups": ntog, "tables": len(tables)}, **wdist)
+    v.cov["evaluations"] += wdist.get("whole_calls_compared", 0)
     v.cov["traces_validated_against_impl"] = ngroups * 32
     v.cov["exhaustive"] = False
     v.cov["rule"] = ("inputs: rule strings of the table itself (from DUMP) joined into phrases, yaml corpus words, random; for each (table, direction, input, mode without compbrl bits, capacity, cursor) all 2^5 presence patterns of "
